@@ -7,7 +7,10 @@ LEVEL = "proof"
 THEOREMS = ['C14_closed_form', 'C14_wf', 'C14_base_rate', 'C14_sum', 'C14_projection', 'C14_case1', 'C14_dogmatic', 'C14_nonneg', 'C14_swap_x', 'C14_swap_y', 'C14_tie']
 RULE = ("bdeduce / bdeduce_sym on the open domain 0<P(x)<1, 0<ax<1, 0<ay<1: 1/8 grid sample (exhaustive over antecedents x a "
         "sample of conditionals), random dyadic grids up to 1/64, dogmatic antecedents, conditionals whose beliefs/disbeliefs differ by 2^-10..2^-45, consequent base rates 2^-k and 1-2^-k (k up to 50), arbitrary floats; f32+f64; all nine "
-        "case branches counted from the model's branch tag. non-trivial = implementation returned a value")
+        "case branches counted from the model's branch tag; results with an EXACT zero mass (antecedent and conditionals with b = 0 or d = 0, "
+        "absolute conditionals: the computed mass is 0 or a rounding residue on either side of 0, which must be accepted); variant `p` "
+        "(x.projection() and the result's projection() as answered by the method, total probability on those); a panic on these exactly "
+        "well-formed operands is reported here (no hand-over to C19). non-trivial = implementation returned a value")
 EXHAUSTIVE = {}
 nontrivial = default_nontrivial
 LEVEL_TEXT = ("Theorems over the exact model on the open domain: sum/projection identities, base rate, label symmetries and the "
@@ -24,6 +27,30 @@ def _case(rng, den):
     c0, c1 = G.rand_tri(rng, den, "any"), G.rand_tri(rng, den, "any")
     ay = Fr(rng.randint(1, den - 1), den)
     return x + c0 + c1 + [ay]
+
+
+def _zero_tri(rng, den):
+    z = rng.random()
+    if z < 0.12:
+        return rng.choice([[Fr(1), Fr(0), Fr(0)], [Fr(0), Fr(1), Fr(0)]])
+    k = rng.randint(0, den)
+    if z < 0.56:
+        return [Fr(0), Fr(k, den), Fr(den - k, den)]
+    return [Fr(k, den), Fr(0), Fr(den - k, den)]
+
+
+def _zero_case(rng, den):
+    while True:
+        t = _zero_tri(rng, den) if rng.random() < 0.85 else G.rand_tri(rng, den, "any")
+        x = t + [Fr(rng.randint(1, den - 1), den)]
+        px = x[0] + x[3] * x[2]
+        if 0 < px < 1:
+            break
+    c0 = _zero_tri(rng, den)
+    c1 = _zero_tri(rng, den) if rng.random() < 0.85 else G.rand_tri(rng, den, "any")
+    if rng.random() < 0.5:
+        c0, c1 = c1, c0
+    return x + c0 + c1 + [Fr(rng.randint(1, den - 1), den)]
 
 
 def cases(rng, tier):
@@ -86,6 +113,17 @@ def cases(rng, tier):
             c1b, c1u = G.float_simplex(rng, fmt, 2)
             ay = 0.05 + 0.9 * rng.random()
             out.append(G.line("bdeduce", fmt, "B.o", [], x + c0b + [c0u] + c1b + [c1u] + [ay]))
+        # exact zeros in the result: antecedent with b = 0 or d = 0, conditionals with b = 0 or d = 0 (or absolute); the exact
+        # belief or disbelief of the consequent is then 0 and the computed one 0 or a residue of either sign
+        for _ in range(N):
+            sc = _zero_case(rng, rng.choice([16, 16, 32, 64]))
+            if rng.random() < 0.8:
+                out.append(G.line("bdeduce", fmt, rng.choice(["B.o", "B.o.p"]), [], sc))
+            else:
+                out.append(G.line("bdeduce_sym", fmt, "B.o", [rng.randint(0, 1)], sc))
+        # the projection() method on ordinary cases
+        for _ in range(N // 3):
+            out.append(G.line("bdeduce", fmt, "B.o.p", [], _case(rng, rng.choice([8, 16, 64]))))
     return out
 
 
